@@ -35,11 +35,11 @@ OPEN_STATEMENTS = [
     '(two nested normal_ordered calls) is Corr + oracle only',
     'hopping shortcut: proved for one shared mode, no shared mode and both modes shared (hopping_shortcut_*), for '
     'hopping operators t (i^ j + j^ i) as in the docstrings',
-    'dc_commutator_sound (diagonal-Coulomb commutator = generic commutator): proved only for the one-body / one-body '
-    'helper on index patterns with pairwise distinct modes (dc_one_body_one_body_sound_partial); open: coinciding '
-    'modes, the double pairing i^ j, j^ i, the one-body / two-body and two-body / two-body helpers, the three-body '
-    'insertion and the sum over term pairs (Corr + oracle: exhaustive over all admissible term pairs on 4 modes, '
-    'random multi-term operators on 5 modes)',
+    'dc_commutator_sound (diagonal-Coulomb commutator = generic commutator): the one-body / one-body helper is '
+    'proved for every index pattern and the whole routine is proved for one-body operators '
+    '(dc_one_body_one_body_sound, dc_commutator_one_body_sound); open: the one-body / two-body and two-body / '
+    'two-body helpers, the three-body insertion and the sum over term pairs (Corr + oracle: exhaustive over all '
+    'admissible term pairs on 4 modes, random multi-term operators on 5 modes)',
     'trivially_double_commutes_dual_basis soundness holds only outside finding F07 (tdc_dual_sound_partial); '
     'trivially_double_commutes_dual_basis_using_term_info: oracle only (all index-set / flag configurations on 4 modes)',
     'bch_expand: exactness proved by kernel computation for orders <= 6 only (no general-order Dynkin '
